@@ -1,6 +1,7 @@
 package loader
 
 import (
+	"fmt"
 	"math"
 	"strconv"
 	"strings"
@@ -11,6 +12,10 @@ func parseTime(format, dateTime string, tzLoc *time.Location, formatFixupState i
 	tz := time.UTC
 	if tzLoc != nil {
 		tz = tzLoc
+	}
+	if formatFixupState < 0 || formatFixupState > len(dateTime) {
+		// a time cell shorter than the suffix that an earlier, longer cell made the loader expect
+		return time.Time{}, fmt.Errorf("time value %q is shorter than the expected format", dateTime)
 	}
 	dateString := dateTime[:len(dateTime)-formatFixupState]
 	if format == "timestamp" {
